@@ -188,6 +188,10 @@ answer_write_options(Value) :-
 set_prolog_flag(Flag, Value) :-
     (var(Flag) ; var(Value)),
     throw(error(instantiation_error, set_prolog_flag/2)). % 8.17.1.3 a, b
+set_prolog_flag(max_arity, 255) :- !. % 7.11.2.3, read only
+set_prolog_flag(max_arity, Value) :- integer(Value), !, '$fail'.
+set_prolog_flag(max_arity, Value) :-
+    throw(error(domain_error(flag_value, max_arity + Value), set_prolog_flag/2)). % 8.17.1.3 e
 set_prolog_flag(bounded, false) :- !. % 7.11.1.1
 set_prolog_flag(bounded, true)  :- !, '$fail'. % 7.11.1.1
 set_prolog_flag(bounded, Value) :-
